@@ -20,7 +20,9 @@ VERIF = os.path.dirname(os.path.dirname(os.path.abspath(__file__)))
 REPO = os.environ.get("VERIF_REPO", "/repo")
 COQ = os.path.join(VERIF, "coq")
 BUILD = os.path.join(VERIF, "build")
-EVID = os.path.join(VERIF, "evidence")
+# VERIF_EVID redirects the evidence files (used when a check is pointed at a scratch copy with VERIF_REPO, so that
+# experiments never overwrite the evidence of the real tree)
+EVID = os.environ.get("VERIF_EVID", os.path.join(VERIF, "evidence"))
 NPROC = os.cpu_count() or 4
 
 FORBIDDEN = re.compile(
